@@ -466,8 +466,17 @@ func rewriteForNative(js *JobSpec, ov map[string][]byte) error {
 	for _, rw := range js.Rewrite {
 		parts := strings.SplitN(rw, ":", 2)
 		file := filepath.Join(repoDir, js.Pkg, parts[0])
+		if strings.HasPrefix(parts[0], "/") {
+			// "/dir/file.go:..." is relative to the repository root (another package)
+			file = filepath.Join(repoDir, parts[0])
+		}
 		kv := strings.SplitN(parts[1], "=", 2)
 		target, stub := kv[0], kv[1]
+		hook := ""
+		if strings.HasPrefix(stub, "@") {
+			// forward through a hook variable declared in that package (cross-package stub)
+			hook = stub[1:]
+		}
 		recv, name := "", target
 		if i := strings.Index(target, "."); i >= 0 {
 			recv, name = target[:i], target[i+1:]
@@ -541,7 +550,20 @@ func rewriteForNative(js *JobSpec, ov map[string][]byte) error {
 			if fd.Type.Results != nil && len(fd.Type.Results.List) > 0 {
 				ret = "return "
 			}
-			fmt.Fprintf(&fwd, "\n%s {\n\t%s%s(%s)\n}\n", sig.String(), ret, stub, strings.Join(as, ", "))
+			if hook != "" {
+				orig := "zzOrig_" + name
+				call := orig + "(" + strings.Join(as, ", ") + ")"
+				if fd.Recv != nil {
+					call = as[0] + "." + orig + "(" + strings.Join(as[1:], ", ") + ")"
+				}
+				tail := "\n\t\treturn"
+				if ret != "" {
+					tail = ""
+				}
+				fmt.Fprintf(&fwd, "\n%s {\n\tif %s != nil {\n\t\t%s%s(%s)%s\n\t}\n\t%s%s\n}\n", sig.String(), hook, ret, hook, strings.Join(as, ", "), tail, ret, call)
+			} else {
+				fmt.Fprintf(&fwd, "\n%s {\n\t%s%s(%s)\n}\n", sig.String(), ret, stub, strings.Join(as, ", "))
+			}
 			fd.Name.Name = "zzOrig_" + name
 		}
 		if !found {
